@@ -4,7 +4,7 @@ from vstatic import terms as T
 from vstatic.terms import sym, Term, Atom, lift, pretty
 from vstatic.effects import summaries
 from vstatic.argbind import resolve_callee
-from .common import B, agree_ref, selfattr, RECORD_NO_INLINE, dominates
+from .common import B, agree_ref, selfattr, RECORD_NO_INLINE, dominates, component_resets, resets_all_pairs, unordered_sweep
 
 REF_COPY = '''
 def copy(self):
@@ -253,12 +253,41 @@ def run(ctx):
            bool(rs) and dominates(rs[0], fb) and not rs[0].loops, {'calls': [e.text() for e in rs]},
            node=(rs[0].node if rs else rec.node), construct='antenna_source.reset_start()')
     for comp in ('digitizer', 'filterbank', 'requantizer'):
-        es = [e for e in I.events if e.kind == 'call' and e.data.get('name') == '._reset_cache' and
-              comp in ast.unparse(e.data['recv_node'])]
-        ok = bool(es) and dominates(es[0], fb) and len(es[0].loops) == 2 and \
-            'num_antennas' in pretty(es[0].loops[0]['iter']) and 'num_pols' in pretty(es[0].loops[1]['iter'])
+        es = component_resets(I, comp)
+        ok = bool(es) and dominates(es[0], fb) and resets_all_pairs(es[0])
         ctx.ob('MUSTPASS', f'every recording resets the {comp} cache of every antenna and polarisation before the first block', rec,
                ok, {'calls': [e.text() for e in es]}, node=(es[0].node if es else rec.node), construct=f'{comp}._reset_cache()')
+    # what _reset_cache must clear: every attribute the processing method carries from one call to the next
+    # (reads and writes) is put back, UNCONDITIONALLY, to the value the constructor gives it
+    Q = 'voltage.quantization.'
+    for cls, proc in ((Q + 'RealQuantizer', 'quantize'), ('voltage.polyphase_filterbank.PolyphaseFilterbank', 'channelize')):
+        pm = ctx.func(cls + '.' + proc)
+        rp, IP = ctx.run(pm, max_depth=0)
+        carried = sorted({e.data['name'] for e in IP.events if e.kind == 'store' and e.data.get('target') == 'attr'
+                          and e.data['base'].key == sym('self').key})
+        ctx.require(carried, f'{cls}.{proc} no longer carries state between calls (C12 RESET rule needs re-anchoring)')
+        ri, II = ctx.run(ctx.func(cls + '.__init__'))
+        rr_, IR_ = ctx.run(ctx.func(cls + '._reset_cache'))
+        for a in carried:
+            want = selfattr(ri, a)
+            got = selfattr(rr_, a)
+            fn = ctx.func(cls + '._reset_cache')
+            if want is None:
+                continue
+            ctx.formula('RESTORE', f'{cls.split(".")[-1]}._reset_cache puts the carried attribute {a} back to its constructed value '
+                        f'whatever the configuration', fn, got if got is not None else T.mk_attr(sym('self'), a), want, node=fn.node,
+                        construct=f'self.{a} after _reset_cache')
+    rc = ctx.func(Q + 'ComplexQuantizer._reset_cache')
+    rq, IQ = ctx.run(rc, no_inline=(Q + 'RealQuantizer._reset_cache',))
+    for part in ('quantizer_r', 'quantizer_i'):
+        es = [e for e in IQ.events if e.kind == 'call' and e.data.get('name', '').endswith('_reset_cache')
+              and e.data.get('recv') is not None and e.data['recv'].key == T.mk_attr(sym('self'), part).key]
+        ctx.ob('MUSTPASS', f'ComplexQuantizer._reset_cache unconditionally resets {part}', rc,
+               bool(es) and es[0].cond().key == T.TRUE.key and not es[0].loops, {'calls': [e.text() for e in es]},
+               node=(es[0].node if es else rc.node), construct=f'self.{part}._reset_cache()')
+    # run-to-run determinism also needs every iteration order to follow from the inputs (PYTHONHASHSEED-dependent
+    # set order, directory listing order)
+    unordered_sweep(ctx)
     glob = []
     for fi in prog.functions.values():
         if isinstance(fi.node, ast.Lambda):
@@ -268,6 +297,16 @@ def run(ctx):
                 glob.append((fi.short, n.names))
     ctx.ob('EFFECTS', 'no function rebinds module-level state (`global`)', 'setigen/**', not glob, {'global_statements': glob},
            construct='package sweep: global')
+    # ... nor modifies a module-level container in place (a memo / registry shared by every object in the process)
+    mg = prog.mutated_globals()
+    for (mod, name), sites in sorted(mg.items()):
+        for fshort, n in sites[:3]:
+            ctx.ob('EFFECTS', f'module-level `{mod}.{name}` is not modified by any function (process-wide state makes results depend '
+                   'on earlier calls)', prog.functions.get('setigen.' + fshort) or mod, False,
+                   {'statement': ast.unparse(n)[:100]}, node=n)
+    ctx.ob('EFFECTS', 'package sweep: no function modifies a module-level variable in place', 'setigen/**', True,
+           {'module_level_names': sum(len(m.globals) for m in prog.modules.values()), 'mutated': len(mg)},
+           construct='package sweep: module-level state')
 
     # ---- D4 pickling / copying
     ctx.clause = 'D4'
